@@ -84,7 +84,7 @@ Lemma reach_walk x a : reach (project st) lo x a -> exists l, gswalk G (sel_of i
 Proof.
   induction 1 as [|z y Hz IH Hy].
   - exists []. split; [exact I|reflexivity].
-  - destruct IH as (l & Hl & He). unfold ups in Hy. destruct (bytes_eqb z str_none); [destruct Hy|].
+  - destruct IH as (l & Hl & He). unfold ups in Hy.
     apply sel_ups_project in Hy. destruct Hy as (e & Hin & Hd & Hs & Hu).
     exists (l ++ [e]). split.
     + apply swalk_app. split; [exact Hl|]. rewrite He. cbn. repeat split; assumption.
@@ -96,9 +96,7 @@ Proof.
   induction l as [|e l IH] using rev_ind; intros Hl; [constructor|].
   apply swalk_app in Hl. destruct Hl as [Hl He]. cbn in He. destruct He as (Hin & Hs & Hd & _).
   rewrite endpoint_app. cbn. eapply reach_step; [apply IH; exact Hl|].
-  unfold ups. destruct (bytes_eqb (gendpoint x l) str_none) eqn:En.
-  - apply bytes_eqb_eq in En. exfalso. apply (wf_none st W e Hin). rewrite Hd. exact En.
-  - apply sel_ups_project. exists e. repeat split; assumption.
+  unfold ups. apply sel_ups_project. exists e. repeat split; assumption.
 Qed.
 
 Theorem ancestors_walks x a :
